@@ -677,3 +677,67 @@ Example C13_nonvacuous_history :
   carries_pattern (CSlash [98; 46; 100]%N) = true /\
   Forall (fun x => fst x = false) (run_cmds fm (code_rcomp true) sstate0 lb [(CSlash [97; 123; 51; 44; 50; 125]%N, 1)] 0 0).
 Proof. cbv zeta. repeat (split; [vm_compute; reflexivity|]). vm_compute. repeat constructor. Qed.
+
+(* ---------------------------------------------------------------------------------------------- *)
+(* COMPOSITION (coq/TrCmp13.v): nothing of the search is left on an oracle, literal path.  C13_tr_lbuf_search_literal is relative to what
+   rstr_make answers and to rstr_free (calls on the extern indices X_rstr_make / X_rstr_free: `@extern mot.c rstr_make / rstr_free`).  Here
+   the call semantics answers them with THE TRANSLATED rstr_make / rstr_free of rstr.c (TrCmp13.ext_is_make, ext_is_free; ext_link13 is the
+   smallest such semantics).  For every keyword string (any offset ko into a NUL-free C string) that the classifier of rstr.c accepts
+   ([^][\<]literal[\>][$]; ignore-case from xic), every buffer, direction and start position: the call of the translated lbuf_search
+   returns what the model lbuf_search_g returns with the matcher TrSearchLit.find_lit rs -- by C13_tr_literal_least the LEAST offset of
+   the searched rest at which the anchored literal holds, so by C13_forward_first_row / C13_backward_last the first match after / the last
+   match before the cursor --, *row / *off / *len hold the model's position, every block of the caller other than those three is
+   untouched, and of the four blocks the call allocated (offs[2], the cell of rstr_make's parameter, the struct rstr, the literal) the
+   struct and the literal are freed.  Side conditions: those of C13_tr_lbuf_search (lines_small, lines_fit, sizes inside int, fuel
+   F > |lines| + maxlen + 4 and > |keyword|), fuel of rstr_make > |keyword|, keyword < 2^31 - 1 bytes; the model's SOOB is excluded.
+   No oracle hypothesis of TrSearch.v turned out false of the real functions (TrSearch.find_ans speaks about the memories of one scan,
+   the rstr_make hypothesis about one call on one explicit memory) -- unlike TrSubst.find_oracle, see Properties_C14.v. *)
+From NV Require TrRstrMake TrCmp13.
+
+Theorem C13_tr_search_literal_full : forall ext F D fuelM dM fuelR dR (m : mem) lb bln lbs lines br bo bl kb (kw : bytes) (ko : nat) rs dir r0 o0 xic vl,
+  TrCmp13.ext_is_make ext fuelM dM -> TrCmp13.ext_is_free ext fuelR dR ->
+  lbuf_at m lb bln lbs lines -> lines_small lines -> lines_fit lines -> length lines + maxlen lines + 4 < F ->
+  dir_ok dir -> (Z.of_nat r0 <= 2147483647)%Z -> (Z.of_nat o0 < 2147483647)%Z ->
+  NoDup [br; bo; bl] -> (forall k, In k [br; bo; bl] -> ~ In k (lb :: bln :: lbs)) ->
+  nth_error m br = Some [VInt (Z.of_nat r0)] -> nth_error m bo = Some [VInt (Z.of_nat o0)] -> nth_error m bl = Some [vl] ->
+  cell_at m G_xic xic -> TrLbufBase.i32 xic ->
+  let flg := (if (xic =? 0)%Z then 0 else 1)%Z in
+  let ic := TrRstr.nz (Z.land flg GenConsts.RE_ICASE) in
+  str_at m kb kw -> nonul kw -> ko <= length kw -> nth_error m TrRstrMake.G_meta = Some TrRstrMake.gb_meta ->
+  (Z.of_nat (length kw) < 2147483647)%Z -> length kw < fuelM -> length kw < F ->
+  RstrDefs.rstr_simple ic (skipn ko kw) = Some rs ->
+  let find := TrSearchLit.find_lit rs in
+  let res := lbuf_search_g (fm_of find) lines (0 <? dir)%Z r0 o0 in
+  res <> SOOB ->
+  let rb := S (S (length m)) in
+  exists mf c, length c = 2 /\
+    callx ext cprog F (S (S (S (S D)))) F_lbuf_search [VPtr lb 0%Z; VPtr kb (Z.of_nat ko); VInt dir; VPtr br 0%Z; VPtr bo 0%Z; VPtr bl 0%Z] m
+    = Ok (VInt (sres_ret res), upd (upd mf (S rb) []) rb []) /\
+    length mf = length m + 4 /\
+    nth_error mf br = Some [VInt (sres_r res (Z.of_nat r0))] /\ nth_error mf bo = Some [VInt (sres_o res (Z.of_nat o0))] /\
+    nth_error mf bl = Some [sres_l res vl] /\ nth_error mf (length m) = Some c /\
+    (forall k, k < length m -> k <> br -> k <> bo -> k <> bl -> nth_error mf k = nth_error m k).
+Proof. exact TrCmp13.tr_lbuf_search_literal_full. Qed.
+Print Assumptions C13_tr_search_literal_full.
+
+(* non-vacuity: lbuf_search RUNS with rstr_make, rstr_find, rstr_free all the translated C text (ext_link13: no oracle that knows
+   anything about patterns): the memory of C13_tr_runs (two lines "xab ab" / "ab", ignorecase on), keyword "ab": /ab from (0,0) lands on
+   (0,1) len 2; ?ab from (1,0) on the LAST match of row 0, (0,4); keyword "\<ab" over "xxab ab": /\<ab from (0,0) skips the occurrence inside "xxab" and
+   lands on (0,5); keyword "^ab$": (1,0) len 2; 112 blocks afterwards = the 108 of the call + offs + the three of rstr_make.  The model
+   with the matcher of the theorem says the same, and the link semantics is one (ext_link13_ok). *)
+Example C13_tr_search_linked_runs :
+  let l0 := [120; 97; 98; 32; 97; 98; 10]%N in let l1 := [97; 98; 10]%N in let ab := [97; 98]%N in let l2 := [120; 120; 97; 98; 32; 97; 98; 10]%N in
+  let ext := TrCmp13.ext_link13 100 6 100 6 in
+  ex_out (callx ext cprog 100 8 F_lbuf_search (ex_args 1) (ex_mem l0 l1 0 0 ab))
+    = Ok (VInt 0%Z, Some [VInt 0%Z], Some [VInt 1%Z], Some [VInt 2%Z], length cglobals + 12) /\
+  lbuf_search_g (fm_of (TrSearchLit.find_lit (RstrDefs.mk_rstr ab true false false false false))) [l0; l1] true 0 0 = SFound 0 1 2 /\
+  ex_out (callx ext cprog 100 8 F_lbuf_search (ex_args (-1)) (ex_mem l0 l1 1 0 ab))
+    = Ok (VInt 0%Z, Some [VInt 0%Z], Some [VInt 4%Z], Some [VInt 2%Z], length cglobals + 12) /\
+  ex_out (callx ext cprog 100 8 F_lbuf_search (ex_args 1) (ex_mem l2 l1 0 0 [92; 60; 97; 98]%N))
+    = Ok (VInt 0%Z, Some [VInt 0%Z], Some [VInt 5%Z], Some [VInt 2%Z], length cglobals + 12) /\
+  lbuf_search_g (fm_of (TrSearchLit.find_lit (RstrDefs.mk_rstr ab true false false true false))) [l2; l1] true 0 0 = SFound 0 5 2 /\
+  ex_out (callx ext cprog 100 8 F_lbuf_search (ex_args 1) (ex_mem l0 l1 0 0 [94; 97; 98; 36]%N))
+    = Ok (VInt 0%Z, Some [VInt 1%Z], Some [VInt 0%Z], Some [VInt 2%Z], length cglobals + 12) /\
+  RstrDefs.rstr_simple true [92; 60; 97; 98]%N = Some (RstrDefs.mk_rstr ab true false false true false) /\
+  TrCmp13.ext_is_make ext 100 6 /\ TrCmp13.ext_is_free ext 100 6.
+Proof. cbv zeta. do 7 (split; [vm_compute; reflexivity|]). exact (TrCmp13.ext_link13_ok 100 6 100 6). Qed.
